@@ -10,7 +10,8 @@ end
    Same as suite hops, plus one oracle descriptor per bank and ops 20 / 21. The per-bank `feed` of a
    Pyth bank is RiskFeed.feed_of_oracle (Price.v adapter model) and is recomputed whenever the clock,
    the oracle account or the presented account changes; nothing else is computed here. *)
-type ostate = { kind : int; cfg : Price.ocfg; mutable msg : Price.pyth_msg; mutable bogus : bool }
+type ostate = { kind : int; mutable cfg : Price.ocfg; mutable msg : Price.pyth_msg; mutable bogus : bool;
+                mutable drift : (M.z * M.z) option (* Drift spot market of the bank: cumulative_deposit_interest, last_interest_ts *) }
 
 let pyth_key (i : int) : M.z = zi (1000 + i)
 let decoy_key : M.z = zi 999
@@ -25,7 +26,9 @@ let parse_oracle (i : int) (t : toks) : ostate =
             oc_max_age = max_age; oc_max_conf = max_conf; oc_fixed_price = zi 0 };
     msg = { Price.pm_full = true; pm_price = price; pm_conf = conf; pm_expo = expo; pm_publish = publish;
             pm_ema_price = ema; pm_ema_conf = ema_conf };
-    bogus = false }
+    bogus = false; drift = None }
+
+let spot_key (i : int) : M.z = zi (2000 + i)
 
 let decoy_msg (now0 : M.z) : Price.pyth_msg =
   { Price.pm_full = true; pm_price = zi 1; pm_conf = zi 0; pm_expo = zi 0; pm_publish = now0;
@@ -38,7 +41,13 @@ let refresh (os : ostate array) (now0 : M.z) (w : M.hworld) : M.hworld =
       let acct =
         if o.bogus then { Price.oa_key = decoy_key; oa_owner = Price.coq_PYTH_RECEIVER_ID; oa_body = Price.BPyth (decoy_msg now0) }
         else { Price.oa_key = pyth_key i; oa_owner = Price.coq_PYTH_RECEIVER_ID; oa_body = Price.BPyth o.msg } in
-      { hb with M.hb_feed = RiskFeed.feed_of_oracle o.cfg [acct] w.M.hw_now }
+      (match o.drift with
+       | None -> { hb with M.hb_feed = RiskFeed.feed_of_oracle o.cfg [acct] w.M.hw_now }
+       | Some (cum, last) ->
+           (* DriftPythPull: the Pyth account followed by the bank's spot market (exchange rate = cumulative deposit interest) *)
+           let spot = { Price.oa_key = spot_key i; oa_owner = zi 0; oa_body = Price.BForeign } in
+           let vn = { Price.vn_loader = Price.VLOk; vn_last = last; vn_supplies = M.Err M.ENone; vn_cum = cum } in
+           { hb with M.hb_feed = RiskFeed.feed_of_oracle_venue o.cfg [acct; spot] vn w.M.hw_now })
     end else hb) w.M.hw_banks in
   { w with M.hw_banks = banks }
 
@@ -77,10 +86,16 @@ let suite_risk (line : string) : string =
         w := { !w with M.hw_banks = banks }; "OK"
       end else if op = 23 then begin
         (* fixture: the bank's asset tag becomes `tag` (a bank of a third-party venue that already holds positions) *)
-        let b = ni t in let tg = nz t in
+        let b = ni t in let tg = nz t in let cum = nz t in let last = nz t in
         let banks = Stdlib.List.mapi (fun i (hb : M.hbank) ->
           if i = b then { hb with M.hb_b = { hb.M.hb_b with M.b_asset_tag = tg } } else hb) !w.M.hw_banks in
-        w := { !w with M.hw_banks = banks }; "OK"
+        w := { !w with M.hw_banks = banks };
+        if os.(b).kind = 1 && zs tg = "4" then begin
+          os.(b).cfg <- { os.(b).cfg with Price.oc_setup = Price.coq_OS_DriftPythPull; oc_key1 = spot_key b };
+          os.(b).drift <- Some (cum, last);
+          w := refresh os now0 !w
+        end;
+        "OK"
       end else begin
         let o : M.hop =
           match op with
